@@ -91,7 +91,7 @@ let run_fields t : string * string =
   let k = next_int t in
   let ops = List.init k (fun _ -> parse_fop t) in
   let show w (obs, fin) = String.concat ";" (List.map show_fobs obs) ^ "|" ^ hex (w fin) in
-  (show m_write (frun uni_lower [] ops), show s_write (srun uni_lower [] ops))
+  (show m_write (frun field_table uni_lower [] ops), show s_write (srun reference_table uni_lower [] ops))
 
 
 (* ---------- C14: spill buffer ---------- *)
@@ -132,12 +132,43 @@ let run_spill t : string * string =
   let show l = String.concat ";" (List.map show_bobs l) in
   (show (b_run (new_buf (nat_of_int mmax)) ops), show (p_run { content = []; poff = O } ops))
 
+
+(* ---------- oracles for value syntax ---------- *)
+let ask_bool kind (s : n list) : bool = ask (kind ^ " " ^ hex s) = "1"
+let time_ok = ask_bool "time"
+let ip_ok = ask_bool "ip"
+let uri_ok = ask_bool "url"
+let wid_ok = ask_bool "urlid"
+
+(* ---------- C17: header validation ---------- *)
+let policy_of_int = function 0 -> Ignore | 1 -> Warn | _ -> Fail
+let show_kind = function
+  | KMissingType -> "mt" | KUnknownType -> "ut" | KIllegal -> "il" | KValue -> "val" | KDup -> "dup"
+  | KMissingReq -> "mr" | KMissingCT -> "ct" | KConcurrent -> "na"
+  | KSyntax -> "syn" | KLength -> "len" | KDigest -> "dig" | KTrailer -> "trl" | KBlock -> "blk"
+  | KVersion -> "ver" | KOffset -> "off"
+let show_findings fs = String.concat "," (List.map (fun (k, _) -> show_kind k) fs)
+let run_validate t : string * string =
+  let spec = next_int t in let unk = next_int t in let vid = next_int t in let k = next_int t in
+  let hs = List.init k (fun _ -> let n = next_hex t in let v = next_hex t in (n, v)) in
+  (* fields are added one by one through Add, which normalises the name *)
+  let hs = List.map (fun (n, v) -> (normalize_name field_table uni_lower n, v)) hs in
+  let r = validate_header field_table required_fields uni_lower time_ok ip_ok uri_ok wid_ok (policy_of_int spec) (policy_of_int unk) (n_of_int vid) hs [] in
+  let m = match r with
+    | Ok ((rt, hs'), fs) -> Printf.sprintf "ok;rt=%d;f=%s;h=%s" (int_of_n rt) (show_findings fs) (hex (m_write hs'))
+    | Err ((k, _), fs) -> Printf.sprintf "err:%s;f=%s" (show_kind k) (show_findings fs) in
+  let acc = spec_accepts reference_table reference_required uni_lower time_ok ip_ok uri_ok wid_ok (n_of_int vid) hs in
+  let tacc = type_accepts uni_lower (policy_of_int unk) hs in
+  let s = if spec = 0 then "-" else Printf.sprintf "acc=%d" (if acc && tacc then 1 else 0) in
+  (m, s)
+
 (* ---------- main ---------- *)
 let run_line (line : string) : string * string =
   let t = { rest = List.filter (fun s -> s <> "") (String.split_on_char ' ' line) } in
   match next t with
   | "fields" -> run_fields t
   | "spill" -> run_spill t
+  | "validate" -> run_validate t
   | d -> failwith ("unknown domain " ^ d)
 
 let () =
